@@ -3,6 +3,7 @@
 #include <kernel/shape.hpp>
 #include <kernel/geometry/conformal_mesh.hpp>
 #include <kernel/trafo/standard/mapping.hpp>
+#include <kernel/trafo/inverse_mapping.hpp>
 #include <kernel/space/lagrange1/element.hpp>
 #include <kernel/space/lagrange2/element.hpp>
 #include <kernel/space/lagrange3/element.hpp>
@@ -39,6 +40,15 @@ void inst_trafo(TrafoT<Shape_, world_dim_>& trafo)
   volatile DT v = trafo_eval.volume(); (void)v;
   trafo_eval.finish();
   volatile DT c = Shape::ReferenceCell<Shape_>::template vertex<DT>(0, 0); (void)c;
+}
+
+// reference-cell predicate of the inverse mapping (is_on_ref) of one shape
+template<typename Shape_>
+void inst_invmap(TrafoT<Shape_>& trafo)
+{
+  Trafo::InverseMapping<TrafoT<Shape_>, DT> inv_map(trafo);
+  typename Trafo::InverseMapping<TrafoT<Shape_>, DT>::DomainPointType dom_point;
+  volatile bool b = inv_map.test_domain_point(dom_point); (void)b;
 }
 
 // the capability set a family declares: parametric families state it as their namespace-level
@@ -114,6 +124,9 @@ void inst_all(TrafoT<S1>& ts1, TrafoT<S2>& ts2, TrafoT<S3>& ts3, TrafoT<H1>& th1
   inst_trafo<H1>(th1); inst_trafo<H2>(th2); inst_trafo<H3>(th3);
   // facet trafos embedded in a higher-dimensional world (trace assembly, node functionals)
   inst_trafo<S1,2>(ts12); inst_trafo<S2,3>(ts23); inst_trafo<H1,2>(th12); inst_trafo<H2,3>(th23);
+
+  inst_invmap<S1>(ts1); inst_invmap<S2>(ts2); inst_invmap<S3>(ts3);
+  inst_invmap<H1>(th1); inst_invmap<H2>(th2); inst_invmap<H3>(th3);
 
   inst_fim<S2,1>(); inst_fim<S3,1>(); inst_fim<S3,2>(); inst_fim<H2,1>(); inst_fim<H3,1>(); inst_fim<H3,2>();
 
